@@ -140,8 +140,8 @@ def _mixture(d, ctx, kind, **kw):
     init_full = np.broadcast_to(case.init, case.aff_shape)
     for idx in np.ndindex(*lead):
         sub = case.copy(lead=(), y=case.y[idx], init=np.array(init_full[idx]))
-        for key in ('saliency', 'source_activity_mask'):
-            if key in case.opts:
+        for key in ('saliency', 'source_activity_mask', 'fixed_covariance'):
+            if case.opts.get(key) is not None:
                 sub.opts[key] = case.opts[key][idx]
         alone = ctx.lib(mm.fit, sub, clause='slice-fit-raises')
         p_al = mm.params(alone, sub)
